@@ -98,6 +98,20 @@ CHECKS.update({
             "driven in-process on thousands of attribute lists."),
 })
 
+CHECKS.update({
+    "C07": ("exploration", "3.C07",
+            "relational monitor over generated generic definitions and instantiations (decl identity, scope, name form, witness equivalence)",
+            "Each generated generic definition is instantiated at 4..6 argument tuples; the monitor compares decl() across instantiations, "
+            "checks the parsed parameter list and defaults, resolves every free name, forbids argument-only type names, parses name(), and "
+            "decides equivalence of the generic declaration expanded at the arguments with decl_concrete() by bounded mutual inclusion of "
+            "enumerated inhabitants."),
+    "C13": ("exploration", "3.C13",
+            "differential monitor across independent compilations, repetitions, thread counts and export orders",
+            "The same generated source is built as several packages (each expanded by a fresh macro process); every public string and every "
+            "export tree (1/4/16 threads, shuffled orders, repeated) must be byte-identical; the in-process driver reports how many items "
+            "really showed different raw token orders in 20 expansions, so that silence is meaningful."),
+})
+
 PENDING = {}
 
 
